@@ -198,6 +198,9 @@ pub fn c06_programs() -> Vec<Arc<Prog>> {
         ),
         // delete + put in one batch
         p3("batch-del-put||snapread", pre.clone(), vec![vec![Batch(vec![(0, None), (2, Some(7))])], vec![SnapRead(vec![0, 2])]], big),
+        // one key twice in a batch: only the batch's last word on the key may ever be seen
+        p3("batch-put-del-same-key||get+get", pre.clone(), vec![vec![Batch(vec![(0, Some(3)), (1, Some(4)), (0, None)])], vec![Get(0), Get(1)]], big),
+        p3("batch-del-put-same-key||snapread", pre.clone(), vec![vec![Batch(vec![(0, None), (1, Some(4)), (0, Some(5))])], vec![SnapRead(vec![0, 1])]], big),
         // deletes inside the batch, observed by an iterator that scans forwards and backwards
         p3("batch-del-put||iterscan", pre.clone(), vec![vec![Batch(vec![(0, None), (2, Some(7))])], vec![IterScan]], big),
         p3(
